@@ -44,6 +44,9 @@ def run(res, tier, seed):
     tb.runner = T["host"].runner
     tb.force_b = True
     tb.run([], 0, 0, 0, cases=singular_cases(gen.G(seed + 5), 30 if quick else 300, 140))
+    # Tier B: trtri recursion (TRSMRec.trtri_upper_rec_f, build's 2*L3 / SSE2 split) and mzd_inv_m4ri through the M4RI model
+    from props import tierb
+    tierb.run(res, "C05", tier, seed)
 
 
 def replay(res, path):
